@@ -3,9 +3,9 @@ SPEC = dict(
     level="proof",
     # a list: the pipe-level builder appends its observer (full client against the fake server) here
     observers=[dict(cmd="obs_lru", args=["-prop", "C09"], imports=["Model.Lru"], case_type="Lru.case", check="Lru.check_case",
-                    shard=25, n={"quick": 150, "thorough": 4000}),
+                    shard=25, n={"quick": 200, "thorough": 4000}),
                dict(cmd="obs_adapter", args=["-prop", "C09"], imports=["Model.Lru", "Model.Adapter"], case_type="Adapter.case", check="Adapter.check_case",
-                    shard=25, n={"quick": 70, "thorough": 2000})],
+                    shard=25, n={"quick": 100, "thorough": 2000})],
     rule="obs_lru: generated histories of 8-45 store operations (Flight, Flights incl. duplicates in one batch, Update with replies of 1x-8x entryMinSize and server expiries around / before / after now, Cancel, Delete of key sets, flush, Close, GetTTL, 1000-2048 repeated hits across the 1024-hit MoveToBack threshold, operations of other callers run at the lock-free points inside Flight/Flights, clocks that occasionally run backwards, TTLs of 0 / negative / sub-millisecond); obs_adapter: 6-40 operations on NewSimpleCacheAdapter over a map-backed SimpleCache (colliding key+cmd pairs, SimpleCache evictions, operations of other callers inside Flight, the two-callers-miss race); a history is non-trivial with at least 3 hits / waits / commits / cancels / invalidations; distinct by (op kinds, observation size)",
     trusted=["container/list, sync.RWMutex, Go maps, channels: modelled by their documented semantics (list = sequence, maps kept in sync with the list, a closed channel releases every waiter)",
              "time.Time.Add / UnixMilli without overflow (|now|, |ttl| < 2^62 ns)",
